@@ -185,26 +185,26 @@ func runSeedMain() int {
 
 // WorkerResult is what a worker hands back to the parent.
 type WorkerResult struct {
-	Index        int               `json:"index"`
-	Runs         int               `json:"runs"`
-	Evals        int               `json:"evals"`
-	Inconclusive map[string]int    `json:"inconclusive"`
-	Signatures   map[string]int    `json:"signatures"`
-	Probes       map[string]int    `json:"probes"`
-	Faults       map[string]int    `json:"faults"`
-	FaultRuns    map[string]int    `json:"fault_runs"`
-	Steps        int64             `json:"steps"`
-	Requests     int64             `json:"requests"`
-	Handoffs     int64             `json:"handoffs"`
-	OrderSigs    int               `json:"order_sigs"`
-	SchedSigs    int               `json:"sched_sigs"`
-	OrderSigSet  []uint64          `json:"order_sig_set,omitempty"`
-	SchedSigSet  []uint64          `json:"sched_sig_set,omitempty"`
-	Violations   []ViolationReport `json:"violations"`
-	Samples      []json.RawMessage `json:"samples"`
-	FirstSeeds   []uint64          `json:"first_seeds"`
-	Funcs        map[string]int64  `json:"funcs,omitempty"`
-	Infra        string            `json:"infra,omitempty"`
+	Index        int                `json:"index"`
+	Runs         int                `json:"runs"`
+	Evals        int                `json:"evals"`
+	Inconclusive map[string]int     `json:"inconclusive"`
+	Signatures   map[string]int     `json:"signatures"`
+	Probes       map[string]int     `json:"probes"`
+	Faults       map[string]int     `json:"faults"`
+	FaultRuns    map[string]int     `json:"fault_runs"`
+	Steps        int64              `json:"steps"`
+	Requests     int64              `json:"requests"`
+	Handoffs     int64              `json:"handoffs"`
+	OrderSigs    int                `json:"order_sigs"`
+	SchedSigs    int                `json:"sched_sigs"`
+	OrderSigSet  []uint64           `json:"order_sig_set,omitempty"`
+	SchedSigSet  []uint64           `json:"sched_sig_set,omitempty"`
+	Violations   []ViolationReport  `json:"violations"`
+	Samples      []json.RawMessage  `json:"samples"`
+	FirstSeeds   []uint64           `json:"first_seeds"`
+	Funcs        map[string]int64   `json:"funcs,omitempty"`
+	Infra        string             `json:"infra,omitempty"`
 	Max          map[string]float64 `json:"max,omitempty"`
 }
 
